@@ -5,17 +5,18 @@ from .common import *
 
 
 class Case:
-    def __init__(self, name, ops, meta=None):
+    def __init__(self, name, ops, meta=None, mode="lib"):
         self.name = name          # no spaces
         self.ops = ops            # symbolic op lines
         self.meta = meta or {}
+        self.mode = mode          # "lib" (L1) or "http" (L2)
     def text(self):
         return f"case {self.name}\n" + "\n".join(self.ops) + "\nend\n"
 
 
 def _run_shard(args):
-    binp, backend, seed, text = args
-    p = subprocess.run([binp, "lib", backend], input=text, capture_output=True, text=True,
+    binp, backend, seed, text, mode = args
+    p = subprocess.run([binp, mode, backend], input=text, capture_output=True, text=True,
                        env=dict(ENV, VERIF_SEED=str(seed)), timeout=3000)
     if p.returncode != 0:
         return None, f"harness exit {p.returncode}: {p.stderr[-2000:]}"
@@ -70,7 +71,12 @@ def run_cases(binp, cases, backend, seed, shards=None):
     buckets = [[] for _ in range(shards)]
     for i, c in enumerate(cases):
         buckets[i % shards].append(c)
-    jobs = [(binp, backend, seed + i, "".join(c.text() for c in b)) for i, b in enumerate(buckets) if b]
+    jobs = []
+    for mode in sorted({c.mode for c in cases}):
+        for i, b in enumerate(buckets):
+            bm = [c for c in b if c.mode == mode]
+            if bm:
+                jobs.append((binp, backend, seed + i, "".join(c.text() for c in bm), mode))
     out = {}
     with cf.ThreadPoolExecutor(max_workers=NCPU) as ex:
         for (res, err) in ex.map(_run_shard, jobs):
@@ -90,6 +96,9 @@ def same_line(op, a, b, tol=3):
     if a == b:
         return True
     kind = op.split()[0]
+    if kind == "http":
+        # the storage-call trace after " | " is compared only by the properties that speak about it
+        return a.split(" | ")[0].strip() == b.split(" | ")[0].strip()
     if kind == "dump":
         ta, tb = TS.findall(a), TS.findall(b)
         if len(ta) == len(tb) and all(abs(int(x) - int(y)) <= tol for x, y in zip(ta, tb)):
